@@ -10,10 +10,15 @@ Inductive hlabel :=
 | LStep (t : Z)                    (* its next atomic section *)
 | LFlush.                          (* RegionStorage flushes its batch (timer, size, Flush) *)
 
+(* a heartbeat of the domain: a well-formed region (C07) and a raft term that is a uint64 *)
+Definition hb_ok (r : region) : bool := wf_region r && (0 <=? r_term r).
+Lemma hb_ok_parts r : hb_ok r = true -> wf_region r = true /\ 0 <= r_term r.
+Proof. unfold hb_ok. intros H. apply andb_true_iff in H as [W T]. apply Z.leb_le in T. auto. Qed.
+
 Definition hl_step (h : hstate) (l : hlabel) : option hstate :=
   match l with
   | LBegin t r =>
-      if wf_region r
+      if hb_ok r
       then match begin h t r with (_, HBad) => None | (h', _) => Some h' end
       else None
   | LStep t => match step h t with (_, HBad) => None | (h', _) => Some h' end
@@ -23,7 +28,7 @@ Definition hl_step (h : hstate) (l : hlabel) : option hstate :=
 Definition cached (c : rinfo) : list region := items (tree c).
 
 Definition threads_wf (h : hstate) : Prop :=
-  forall t r fl, In (t, PLock r fl) (h_threads h) -> wf_region r = true.
+  forall t r fl, In (t, PLock r fl) (h_threads h) -> hb_ok r = true /\ f_cache fl = true.
 
 Definition HInv (h : hstate) : Prop := Inv (h_cache h) /\ threads_wf h.
 
@@ -49,28 +54,80 @@ Proof.
   eapply Inv_intro; eauto. apply spec_tree_good; auto.
 Qed.
 
+Lemma keep_term_fields c r :
+  let r' := keep_term c r in
+  r_id r' = r_id r /\ r_start r' = r_start r /\ r_end r' = r_end r /\ r_peers r' = r_peers r /\ r_leader r' = r_leader r /\
+  r_pending r' = r_pending r /\ r_size r' = r_size r /\ r_ver r' = r_ver r /\ r_confver r' = r_confver r /\ r_stamp r' = r_stamp r.
+Proof. unfold keep_term. destruct (r_term r =? 0); [destruct (get_region c (r_id r))|]; cbn; repeat split; reflexivity. Qed.
+
+Lemma keep_term_id c r : r_id (keep_term c r) = r_id r.
+Proof. apply keep_term_fields. Qed.
+
+Lemma wf_keep_term c r : wf_region (keep_term c r) = wf_region r.
+Proof.
+  destruct (keep_term_fields c r) as (E1 & E2 & E3 & E4 & E5 & E6 & _).
+  unfold wf_region, valid_range, wf_peers, pending_in_peers. rewrite E2, E3, E4, E6. reflexivity.
+Qed.
+
+Lemma displaced_keep_term l c r : displaced l (keep_term c r) = displaced l r.
+Proof.
+  destruct (keep_term_fields c r) as (E1 & E2 & E3 & _). unfold displaced. apply filter_ext. intros x.
+  unfold overlaps. rewrite E1, E2, E3. reflexivity.
+Qed.
+
+Lemma keep_keep_term c r x : keep (keep_term c r) x = keep r x.
+Proof.
+  destruct (keep_term_fields c r) as (E1 & E2 & E3 & _). unfold keep, overlaps. rewrite E1, E2, E3. reflexivity.
+Qed.
+
+Lemma Inv_put c r : Inv c -> wf_region r = true ->
+  Inv (fst (put_region c r)) /\ cached (fst (put_region c r)) = spec_tree (cached c) (keep_term c r) /\
+  snd (put_region c r) = displaced (cached c) r.
+Proof.
+  intros I W. unfold put_region. rewrite <- (wf_keep_term c r) in W.
+  destruct (Inv_set c _ I W) as (A & B & C). rewrite displaced_keep_term in C. auto.
+Qed.
+
+(* a heartbeat that is not answered at once always updates the cache: saveKV and isNew imply saveCache *)
+Lemma flags_kv_cache r origin : f_kv (compute_flags r origin) = true -> f_cache (compute_flags r origin) = true.
+Proof.
+  destruct origin as [o|]; cbn; [|reflexivity]. intros H.
+  apply orb_true_iff in H as [H|H]; [apply orb_true_iff in H as [H|H]|]; rewrite H; rewrite ?orb_true_r; reflexivity.
+Qed.
+Lemma flags_new_cache r origin : f_new (compute_flags r origin) = true -> f_cache (compute_flags r origin) = true.
+Proof.
+  destruct origin as [o|]; cbn; [|reflexivity]. intros H. apply andb_true_iff in H as [H _].
+  rewrite H; rewrite ?orb_true_r; reflexivity.
+Qed.
+Lemma flags_not_early r origin :
+  negb (f_kv (compute_flags r origin)) && negb (f_cache (compute_flags r origin)) && negb (f_new (compute_flags r origin)) = false ->
+  f_cache (compute_flags r origin) = true.
+Proof.
+  intros H. destruct (f_cache (compute_flags r origin)) eqn:FC; [reflexivity|]. exfalso.
+  destruct (f_kv (compute_flags r origin)) eqn:FK; [rewrite (flags_kv_cache _ _ FK) in FC; discriminate|].
+  destruct (f_new (compute_flags r origin)) eqn:FN; [rewrite (flags_new_cache _ _ FN) in FC; discriminate|].
+  discriminate H.
+Qed.
+
 Lemma HInv_init wb : HInv (h_init wb).
 Proof. split; [apply Inv_empty|]. intros t r fl []. Qed.
 
 Lemma HInv_step h l h' : HInv h -> hl_step h l = Some h' -> HInv h'.
 Proof.
   intros [I TW] H. destruct l as [t r|t|]; cbn in H.
-  - destruct (wf_region r) eqn:W; [|discriminate]. unfold begin in H.
+  - destruct (hb_ok r) eqn:W; [|discriminate]. unfold begin in H.
     destruct (th_get (h_threads h) t); [discriminate|].
     destruct (precheck (h_cache h) r) as [origin err]. destruct err; [inversion H; subst; split; auto|].
-    destruct (negb _ && negb _ && negb _); inversion H; subst; [split; auto|].
-    split; [exact I|]. intros t0 r0 fl0 Hin. cbn in Hin. apply th_set_in in Hin as [E|Hin]; [inversion E; subst; exact W|eauto].
+    destruct (negb _ && negb _ && negb _) eqn:ND; inversion H; subst; [split; auto|].
+    split; [exact I|]. intros t0 r0 fl0 Hin. cbn in Hin.
+    apply th_set_in in Hin as [E|Hin]; [inversion E; subst; split; [exact W|apply flags_not_early, ND]|eauto].
   - unfold step in H. destruct (th_get (h_threads h) t) as [[r fl|todo]|] eqn:TG; [| |discriminate].
-    + pose proof (TW _ _ _ (th_get_in _ _ _ TG)) as W.
-      assert (KEEP : forall l', (forall x, In x l' -> x = (t, PStore (store_ops (snd (set_region (h_cache h) r)) r fl)) \/
-                                    x = (t, PStore (store_ops [] r fl)) \/ In x (h_threads h)) ->
-                     forall t0 r0 fl0, In (t0, PLock r0 fl0) l' -> wf_region r0 = true).
-      { intros l' HL t0 r0 fl0 Hin. destruct (HL _ Hin) as [E|[E|Hin']]; [inversion E|inversion E|eauto]. }
+    + destruct (TW _ _ _ (th_get_in _ _ _ TG)) as [W FCt]. destruct (hb_ok_parts _ W) as [Ww _].
       destruct (f_cache fl).
       * destruct (precheck (h_cache h) r) as [origin err]. destruct err.
         -- inversion H; subst. split; [exact I|]. intros t0 r0 fl0 Hin. apply th_del_in in Hin. eauto.
-        -- destruct (Inv_set _ r I W) as (I' & _ & _).
-           destruct (set_region (h_cache h) r) as [c' ov] eqn:SR. cbn [fst snd] in *.
+        -- destruct (Inv_put _ r I Ww) as (I' & _ & _).
+           destruct (put_region (h_cache h) r) as [c' ov] eqn:SR. cbn [fst snd] in *.
            destruct (store_ops ov r fl) eqn:SO; inversion H; subst; (split; [exact I'|]); intros t0 r0 fl0 Hin.
            ++ apply th_del_in in Hin. eauto.
            ++ apply th_set_in in Hin as [E|Hin]; [inversion E|eauto].
@@ -98,10 +155,10 @@ Definition accepted (c : rinfo) (r : region) : Prop := snd (precheck c r) = fals
 Lemma step_cache h l h' : hl_step h l = Some h' ->
   h_cache h' = h_cache h \/
   exists t r fl, l = LStep t /\ In (t, PLock r fl) (h_threads h) /\ accepted (h_cache h) r /\
-                 h_cache h' = fst (set_region (h_cache h) r).
+                 h_cache h' = fst (put_region (h_cache h) r).
 Proof.
   intros H. destruct l as [t r|t|]; cbn in H.
-  - left. destruct (wf_region r); [|discriminate]. unfold begin in H.
+  - left. destruct (hb_ok r); [|discriminate]. unfold begin in H.
     destruct (th_get (h_threads h) t); [discriminate|].
     destruct (precheck (h_cache h) r) as [origin err]. destruct err; [inversion H; reflexivity|].
     destruct (negb _ && negb _ && negb _); inversion H; reflexivity.
@@ -109,28 +166,32 @@ Proof.
     + destruct (f_cache fl).
       * destruct (precheck (h_cache h) r) as [origin err] eqn:PC. destruct err; [left; inversion H; reflexivity|].
         right. exists t, r, fl. split; [reflexivity|]. split; [apply th_get_in, TG|]. split; [unfold accepted; rewrite PC; reflexivity|].
-        destruct (set_region (h_cache h) r) as [c' ov]. cbn. destruct (store_ops ov r fl); inversion H; reflexivity.
+        destruct (put_region (h_cache h) r) as [c' ov]. cbn. destruct (store_ops ov r fl); inversion H; reflexivity.
       * left. destruct (store_ops [] r fl); inversion H; reflexivity.
     + left. destruct todo as [|o rest]; [inversion H; reflexivity|]. destruct rest; inversion H; reflexivity.
   - left. inversion H; reflexivity.
 Qed.
 
-(* ---- epochs never go back for a served id ---- *)
+(* ---- epochs never go back for a served id: version, conf_ver and term (a heartbeat that reports no term keeps
+        the served one) ---- *)
 Definition epoch_le (x x' : region) : Prop :=
-  r_ver x <= r_ver x' /\ r_confver x <= r_confver x' /\ (0 < r_term x' -> r_term x <= r_term x').
+  r_ver x <= r_ver x' /\ r_confver x <= r_confver x' /\ r_term x <= r_term x'.
 
 Lemma precheck_origin c r : fst (relevant c r) = get_region c (r_id r).
 Proof. reflexivity. Qed.
 
-Lemma accepted_origin c r o : accepted c r -> get_region c (r_id r) = Some o -> epoch_le o r.
+Lemma accepted_origin c r o : accepted c r -> 0 <= r_term r -> get_region c (r_id r) = Some o -> epoch_le o (keep_term c r).
 Proof.
   unfold accepted, precheck. destruct (relevant c r) as [origin ov] eqn:RL.
   pose proof (precheck_origin c r) as PO. rewrite RL in PO. cbn in PO. subst origin.
-  intros A G. rewrite G in A. destruct (existsb _ ov); [discriminate|].
+  intros A T G. rewrite G in A. destruct (existsb _ ov); [discriminate|].
   destruct ((0 <? r_term r) && (r_term r <? r_term o) || (r_ver r <? r_ver o) || (r_confver r <? r_confver o)) eqn:B; [discriminate|].
   apply orb_false_iff in B as [B B3]. apply orb_false_iff in B as [B1 B2].
-  apply Z.ltb_ge in B2, B3. split; [lia|]. split; [lia|].
-  intros P. apply andb_false_iff in B1 as [B1|B1]; apply Z.ltb_ge in B1; lia.
+  apply Z.ltb_ge in B2, B3.
+  destruct (keep_term_fields c r) as (_ & _ & _ & _ & _ & _ & _ & EV & EC & _). unfold epoch_le. rewrite EV, EC.
+  split; [lia|]. split; [lia|].
+  unfold keep_term. rewrite G. destruct (Z.eqb_spec (r_term r) 0) as [Z0|NZ]; [cbn; lia|].
+  apply andb_false_iff in B1 as [B1|B1]; apply Z.ltb_ge in B1; lia.
 Qed.
 
 Lemma get_after_set c r id x' : Inv c -> wf_region r = true ->
@@ -146,13 +207,22 @@ Proof.
     split; [congruence|]. apply (regs_rep_get _ _ _ _ HR). auto.
 Qed.
 
+Lemma get_after_put c r id x' : Inv c -> wf_region r = true ->
+  get_region (fst (put_region c r)) id = Some x' ->
+  (id = r_id r /\ x' = keep_term c r) \/ (id <> r_id r /\ get_region c id = Some x').
+Proof.
+  intros I W G. unfold put_region in G. rewrite <- (wf_keep_term c r) in W.
+  apply (get_after_set _ _ _ _ I W) in G. rewrite keep_term_id in G. exact G.
+Qed.
+
 Theorem epoch_monotone_step_pf h l h' id x x' :
   HInv h -> hl_step h l = Some h' ->
   get_region (h_cache h) id = Some x -> get_region (h_cache h') id = Some x' -> epoch_le x x'.
 Proof.
   intros [I TW] H G G'. destruct (step_cache _ _ _ H) as [E|(t & r & fl & _ & Hin & A & E)].
   - rewrite E in G'. assert (x' = x) by congruence. subst. unfold epoch_le. lia.
-  - rewrite E in G'. apply (get_after_set _ _ _ _ I (TW _ _ _ Hin)) in G' as [[-> ->]|[_ G']].
+  - destruct (hb_ok_parts _ (proj1 (TW _ _ _ Hin))) as [W T].
+    rewrite E in G'. apply (get_after_put _ _ _ _ I W) in G' as [[-> ->]|[_ G']].
     + eapply accepted_origin; eauto.
     + assert (x' = x) by congruence. subst. unfold epoch_le. lia.
 Qed.
@@ -171,7 +241,7 @@ Proof.
   unfold step. destruct (th_get (h_threads h) t) as [[r fl|todo]|]; [| |intros H; inversion H].
   - destruct (f_cache fl).
     + destruct (precheck (h_cache h) r) as [origin err]. destruct err; [intros H; inversion H; auto|].
-      destruct (set_region (h_cache h) r) as [c' ov]. destruct (store_ops ov r fl); intros H; inversion H.
+      destruct (put_region (h_cache h) r) as [c' ov]. destruct (store_ops ov r fl); intros H; inversion H.
     + destruct (store_ops [] r fl); intros H; inversion H.
   - destruct todo as [|o rest]; [intros H; inversion H|]. destruct rest; intros H; inversion H.
 Qed.
@@ -189,6 +259,10 @@ Proof.
   - apply negb_true_iff, Z.eqb_neq in K1. congruence.
   - rewrite (nodup_ids_eq _ _ _ N Hy HxT Ey) in KY. unfold keep in KY. rewrite K2 in KY. rewrite andb_false_r in KY. discriminate.
 Qed.
+
+Theorem displaced_gone_from_cache_put_pf c r x : Inv c -> wf_region r = true ->
+  In x (snd (put_region c r)) -> get_region (fst (put_region c r)) (r_id x) = None /\ In x (cached c).
+Proof. intros I W. unfold put_region. rewrite <- (wf_keep_term c r) in W. apply displaced_gone_from_cache_pf; assumption. Qed.
 
 (* ---- the first and the second precheck reject exactly the stale heartbeats of the statement ---- *)
 Definition origin_stale (r x : region) : bool :=
@@ -256,11 +330,11 @@ Proof.
   destruct (precheck (h_cache h) r) as [origin err]. cbn in S. subst err. reflexivity.
 Qed.
 
-Theorem stale_rejected_step_pf h t r fl : HInv h -> th_get (h_threads h) t = Some (PLock r fl) -> f_cache fl = true ->
+Theorem stale_rejected_step_pf h t r fl : HInv h -> th_get (h_threads h) t = Some (PLock r fl) ->
   stale_spec (cached (h_cache h)) r = true ->
   exists h', step h t = (h', HErr) /\ h_cache h' = h_cache h /\ h_store h' = h_store h.
 Proof.
-  intros [I TW] TG FC S. pose proof (TW _ _ _ (th_get_in _ _ _ TG)) as W.
+  intros [I TW] TG S. destruct (TW _ _ _ (th_get_in _ _ _ TG)) as [W0 FC]. destruct (hb_ok_parts _ W0) as [W _].
   apply wf_region_parts in W as [V _].
   rewrite <- (precheck_is_stale_pf _ _ I V) in S. unfold step. rewrite TG, FC.
   destruct (precheck (h_cache h) r) as [origin err]. cbn in S. subst err. eexists. split; [reflexivity|]. split; reflexivity.
@@ -287,120 +361,28 @@ Proof.
   - assert (y = x) by congruence. subst. unfold epoch_le. lia.
 Qed.
 
-(* version and conf_ver: unconditional *)
-Theorem versions_monotone_chain_pf ls : forall h id x x', HInv h -> always_served id h ls ->
+(* version, conf_ver and term along a whole execution, for as long as the id stays served *)
+Theorem epochs_monotone_chain_pf ls : forall h id x x', HInv h -> always_served id h ls ->
   get_region (h_cache h) id = Some x -> get_region (h_cache (exec hl_step h ls)) id = Some x' ->
-  r_ver x <= r_ver x' /\ r_confver x <= r_confver x'.
+  epoch_le x x'.
 Proof.
   induction ls as [|l ls IH]; intros h id x x' I AS G G'.
-  - cbn in G'. assert (x' = x) by congruence. subst. lia.
+  - cbn in G'. assert (x' = x) by congruence. subst. unfold epoch_le. lia.
   - rewrite exec_next in G'. destruct AS as [_ AS]. pose proof AS as AS'.
     destruct ls as [|l2 ls2]; destruct AS' as [NN _];
       (destruct (get_region (h_cache (next h l)) id) as [y|] eqn:GY; [|congruence]);
-      destruct (epoch_le_next _ _ _ _ _ I G GY) as (V1 & C1 & _);
-      destruct (IH _ _ _ _ (HInv_next _ l I) AS GY G') as (V2 & C2); lia.
+      destruct (epoch_le_next _ _ _ _ _ I G GY) as (V1 & C1 & T1);
+      destruct (IH _ _ _ _ (HInv_next _ l I) AS GY G') as (V2 & C2 & T2); unfold epoch_le; lia.
 Qed.
 
-(* term: when every heartbeat reports one *)
-Definition reports_term (l : hlabel) : Prop := match l with LBegin _ r => 0 < r_term r | _ => True end.
-Definition terms_pos (h : hstate) : Prop :=
-  (forall x, In x (cached (h_cache h)) -> 0 < r_term x) /\
-  (forall t r fl, In (t, PLock r fl) (h_threads h) -> 0 < r_term r).
-
-Lemma terms_pos_next h l : HInv h -> terms_pos h -> reports_term l -> terms_pos (next h l).
-Proof.
-  intros [I TW] [TC TT] RT. unfold next. destruct (hl_step h l) as [h'|] eqn:H; [|split; auto].
-  destruct (step_cache _ _ _ H) as [E|(t & r & fl & El & Hin & _ & E)].
-  - split; [rewrite E; exact TC|].
-    destruct l as [t r|t|]; cbn in H.
-    + destruct (wf_region r); [|discriminate]. unfold begin in H.
-      destruct (th_get (h_threads h) t); [discriminate|].
-      destruct (precheck (h_cache h) r) as [origin err]. destruct err; [inversion H; subst; exact TT|].
-      destruct (negb _ && negb _ && negb _); inversion H; subst; [exact TT|].
-      intros t0 r0 fl0 Hin. cbn in Hin. apply th_set_in in Hin as [E'|Hin]; [inversion E'; subst; exact RT|eauto].
-    + unfold step in H. destruct (th_get (h_threads h) t) as [[r fl|todo]|] eqn:TG; [| |discriminate].
-      * destruct (f_cache fl).
-        -- destruct (precheck (h_cache h) r) as [origin err]. destruct err.
-           ++ inversion H; subst. intros t0 r0 fl0 Hin. apply th_del_in in Hin. eauto.
-           ++ destruct (set_region (h_cache h) r) as [c' ov]. destruct (store_ops ov r fl); inversion H; subst; intros t0 r0 fl0 Hin.
-              ** apply th_del_in in Hin. eauto.
-              ** apply th_set_in in Hin as [E'|Hin]; [inversion E'|eauto].
-        -- destruct (store_ops [] r fl); inversion H; subst; intros t0 r0 fl0 Hin.
-           ++ apply th_del_in in Hin. eauto.
-           ++ apply th_set_in in Hin as [E'|Hin]; [inversion E'|eauto].
-      * destruct todo as [|o rest]; [inversion H; subst; intros t0 r0 fl0 Hin; apply th_del_in in Hin; eauto|].
-        destruct rest; inversion H; subst; intros t0 r0 fl0 Hin.
-        -- apply th_del_in in Hin. eauto.
-        -- apply th_set_in in Hin as [E'|Hin]; [inversion E'|eauto].
-    + inversion H; subst. exact TT.
-  - split.
-    + rewrite E. destruct (Inv_set _ r I (TW _ _ _ Hin)) as (_ & ET & _). fold (cached (fst (set_region (h_cache h) r))). rewrite ET.
-      intros x Hx. apply spec_tree_in in Hx as [->|[Hx _]]; [eapply TT; eauto|auto].
-    + (* the thread table only loses / rewrites the entry of t *)
-      subst l. cbn in H. unfold step in H. destruct (th_get (h_threads h) t) as [[r1 fl1|todo]|] eqn:TG; [| |discriminate].
-      * destruct (f_cache fl1).
-        -- destruct (precheck (h_cache h) r1) as [origin err]. destruct err.
-           ++ inversion H; subst. intros t2 r2 fl2 Hin2. apply th_del_in in Hin2. eauto.
-           ++ destruct (set_region (h_cache h) r1) as [c' ov]. destruct (store_ops ov r1 fl1); inversion H; subst; intros t2 r2 fl2 Hin2.
-              ** apply th_del_in in Hin2. eauto.
-              ** apply th_set_in in Hin2 as [E'|Hin2]; [inversion E'|eauto].
-        -- destruct (store_ops [] r1 fl1); inversion H; subst; intros t2 r2 fl2 Hin2.
-           ++ apply th_del_in in Hin2. eauto.
-           ++ apply th_set_in in Hin2 as [E'|Hin2]; [inversion E'|eauto].
-      * destruct todo as [|o rest]; [inversion H; subst; intros t2 r2 fl2 Hin2; apply th_del_in in Hin2; eauto|].
-        destruct rest; inversion H; subst; intros t2 r2 fl2 Hin2.
-        -- apply th_del_in in Hin2. eauto.
-        -- apply th_set_in in Hin2 as [E'|Hin2]; [inversion E'|eauto].
-Qed.
-
-Theorem term_monotone_chain_pf ls : forall h id x x', HInv h -> terms_pos h -> Forall reports_term ls ->
-  always_served id h ls ->
-  get_region (h_cache h) id = Some x -> get_region (h_cache (exec hl_step h ls)) id = Some x' ->
-  r_term x <= r_term x'.
-Proof.
-  induction ls as [|l ls IH]; intros h id x x' I TP F AS G G'.
-  - cbn in G'. assert (x' = x) by congruence. subst. lia.
-  - rewrite exec_next in G'. destruct AS as [_ AS]. inversion F as [|? ? RT F']; subst.
-    assert (NN : get_region (h_cache (next h l)) id <> None) by (destruct ls; destruct AS; auto).
-    destruct (get_region (h_cache (next h l)) id) as [y|] eqn:GY; [|congruence].
-    destruct (epoch_le_next _ _ _ _ _ I G GY) as (_ & _ & T1).
-    pose proof (terms_pos_next _ l I TP RT) as TP'.
-    pose proof (HInv_next _ l I) as I'.
-    assert (PY : 0 < r_term y).
-    { destruct TP' as [TC _]. apply TC. destruct I' as [(_ & HR & _) _].
-      apply (regs_rep_get _ _ _ _ HR) in GY as [Hy _]. exact Hy. }
-    specialize (IH _ _ _ _ I' TP' F' AS GY G'). specialize (T1 PY). lia.
-Qed.
-
-Lemma terms_pos_init wb : terms_pos (h_init wb).
-Proof. split; [intros x []|intros t r fl []]. Qed.
-
-(* the full clause (a mix of heartbeats with and without term) is false *)
-Definition term_monotone_full : Prop :=
-  forall wb ls1 ls2 id x x',
-    let h1 := exec hl_step (h_init wb) ls1 in
-    always_served id h1 ls2 ->
-    get_region (h_cache h1) id = Some x -> get_region (h_cache (exec hl_step h1 ls2)) id = Some x' ->
-    0 < r_term x -> 0 < r_term x' -> r_term x <= r_term x'.
-
+(* regression: the history that showed the served term going 5 -> 0 -> 3 before /repo 9338658 (a heartbeat without
+   term, then a smaller reported term).  Now the term-less heartbeat keeps term 5 and the third one is rejected. *)
 Definition term_gap_region (term stamp : Z) : region :=
   Region 1 (K [97]) (K [99]) [Peer 11 1 false; Peer 12 2 false] 11 [] 10 1 1 term stamp.
 
-Theorem term_monotone_refuted_pf : ~ term_monotone_full.
-Proof.
-  intros H.
-  specialize (H false [LBegin 1 (term_gap_region 5 1); LStep 1; LStep 1]
-                [LBegin 1 (term_gap_region 0 2); LStep 1; LStep 1; LBegin 1 (term_gap_region 3 3); LStep 1; LStep 1]
-                1 (term_gap_region 5 1) (term_gap_region 3 3)).
-  cbn zeta in H.
-  assert (A : always_served 1 (exec hl_step (h_init false) [LBegin 1 (term_gap_region 5 1); LStep 1; LStep 1])
-                [LBegin 1 (term_gap_region 0 2); LStep 1; LStep 1; LBegin 1 (term_gap_region 3 3); LStep 1; LStep 1]).
-  { vm_compute. repeat split; discriminate. }
-  specialize (H A).
-  assert (G1 : get_region (h_cache (exec hl_step (h_init false) [LBegin 1 (term_gap_region 5 1); LStep 1; LStep 1])) 1
-               = Some (term_gap_region 5 1)) by (vm_compute; reflexivity).
-  assert (G2 : get_region (h_cache (exec hl_step (exec hl_step (h_init false) [LBegin 1 (term_gap_region 5 1); LStep 1; LStep 1])
-                 [LBegin 1 (term_gap_region 0 2); LStep 1; LStep 1; LBegin 1 (term_gap_region 3 3); LStep 1; LStep 1])) 1
-               = Some (term_gap_region 3 3)) by (vm_compute; reflexivity).
-  specialize (H G1 G2). cbn in H. lia.
-Qed.
+Example term_gap_behaves :
+  let h1 := exec hl_step (h_init false) [LBegin 1 (term_gap_region 5 1); LStep 1; LStep 1] in
+  let h2 := exec hl_step h1 [LBegin 1 (term_gap_region 0 2); LStep 1; LStep 1] in
+  option_map r_term (get_region (h_cache h2) 1) = Some 5 /\
+  snd (begin h2 1 (term_gap_region 3 3)) = HErr.
+Proof. vm_compute. auto. Qed.
